@@ -237,34 +237,36 @@ Section HyperBatch.
 
     (* pruneToRebuild + interpretation, from the tiles at the recovery height upwards; idx = the key prefixes of
        the persisted tiles (each of length nbits - (limit+4)) *)
+    Definition rchildf (rec : list bool -> list (list bool) -> bt -> bool -> option res)
+               (h' : nat) (pre' : list bool) (ix : list (list bool)) (ct : bt) : option res :=
+      match ix with
+      | [] => option_map (fun d => (d, ct, [])) (discard ct h')
+      | _ =>
+          if Nat.eqb (h' mod 4) 0 then
+            if Nat.eqb h' (limit + 4) then
+              (* traverse: the tile itself is in the cache by now; its root hash is what the parent gets *)
+              match discard (load (pre', h')) h' with
+              | Some d => Some (d, set_root ct (Some (SHash d)), [])
+              | None => None
+              end
+            else
+              match rec pre' ix (load (pre', h')) true with
+              | Some (d, _, w) => Some (d, set_root ct (Some (SHash d)), w)
+              | None => None
+              end
+          else rec pre' ix ct false
+      end.
+
     Fixpoint rebuild (h : nat) (pre : list bool) (idx : list (list bool)) (t : bt) (isroot : bool) {struct h}
-      : option (D * bt * list wr) :=
-      let child (h' : nat) (pre' : list bool) (ix : list (list bool)) (ct : bt) :=
-        match ix with
-        | [] => option_map (fun d => (d, ct, [])) (discard ct h')
-        | _ =>
-            if Nat.eqb (h' mod 4) 0 then
-              if Nat.eqb h' (limit + 4) then
-                (* traverse: the tile itself is in the cache by now; its root hash is what the parent gets *)
-                match discard (load (pre', h')) h' with
-                | Some d => Some (d, set_root ct (Some (SHash d)), [])
-                | None => None
-                end
-              else
-                match rebuild h' pre' ix (load (pre', h')) true with
-                | Some (d, _, w) => Some (d, set_root ct (Some (SHash d)), w)
-                | None => None
-                end
-            else rebuild h' pre' ix ct false
-        end in
+      : option res :=
       match h, t with
       | S h', BNode _ l r =>
           let il := filter (fun k => negb (nth (length pre) k false)) idx in
           let ir := filter (fun k => nth (length pre) k false) idx in
-          match child h' (pre ++ [false]) il l with
+          match rchildf (rebuild h') h' (pre ++ [false]) il l with
           | None => None
           | Some (dl, l1, w1) =>
-              match child h' (pre ++ [true]) ir r with
+              match rchildf (rebuild h') h' (pre ++ [true]) ir r with
               | None => None
               | Some (dr, r1, w2) =>
                   let d := H (YNode dr dl (pre, h)) in
